@@ -83,7 +83,10 @@ pub(crate) trait Selector<I: Interest, E: Event, S: EventIterator<E>> {
     /// if add failed.
     fn add_read_event(&self, fd: c_int, token: u64) -> std::io::Result<()> {
         if READABLE_RECORDS.contains(&fd) {
-            if REGISTERED_TOKENS.get(&fd).is_some_and(|r| token == *r.value()) {
+            if REGISTERED_TOKENS
+                .get(&fd)
+                .is_some_and(|r| token == *r.value())
+            {
                 return Ok(());
             }
             // somebody else waits on the descriptor now, its readiness has to carry the new token
@@ -113,7 +116,10 @@ pub(crate) trait Selector<I: Interest, E: Event, S: EventIterator<E>> {
     /// if add failed.
     fn add_write_event(&self, fd: c_int, token: u64) -> std::io::Result<()> {
         if WRITABLE_RECORDS.contains(&fd) {
-            if REGISTERED_TOKENS.get(&fd).is_some_and(|r| token == *r.value()) {
+            if REGISTERED_TOKENS
+                .get(&fd)
+                .is_some_and(|r| token == *r.value())
+            {
                 return Ok(());
             }
             // somebody else waits on the descriptor now, its readiness has to carry the new token
